@@ -540,6 +540,22 @@ impl<'c> VisitMut for Rw<'c> {
                 } }
             }
         }
+        // T3: `m.values().filter_map(WeakX::upgrade).collect::<Vec<_>>()` -> `m.collect_upgraded()` ; `m.retain(|_, v| v.upgrade().is_some())` -> `m.retain_upgradable()`
+        if let Expr::MethodCall(m) = e {
+            if m.method == "collect" && m.args.is_empty() {
+                if let Expr::MethodCall(fm) = &*m.receiver { if fm.method == "filter_map" && fm.args.len() == 1 && nospace(&fm.args[0].to_token_stream().to_string()).ends_with("::upgrade") {
+                    if let Expr::MethodCall(vs) = &*fm.receiver { if vs.method == "values" && vs.args.is_empty() { let recv = &vs.receiver; self.cx.fire("T3"); *e = parse_quote!(#recv.collect_upgraded()); } }
+                } }
+            }
+        }
+        if let Expr::MethodCall(m) = e {
+            if m.method == "retain" && m.args.len() == 1 {
+                let a = nospace(&m.args[0].to_token_stream().to_string());
+                if a.starts_with("|_,") && a.ends_with(".upgrade().is_some()") { let recv = &m.receiver; self.cx.fire("T3"); *e = parse_quote!(#recv.retain_upgradable()); }
+            }
+        }
+        // T3: `for x in &v` -> `for x in v.iter()`
+        if let Expr::ForLoop(fl) = e { if let Expr::Reference(r) = &*fl.expr { if r.mutability.is_none() { let inner = &r.expr; let it: Expr = parse_quote!(#inner.iter()); fl.expr = Box::new(it); self.cx.fire("T3"); } } }
         // T3: `for x in v.drain(..) { B }` -> `loop { match v.drain_next() { Some(x) => B, None => break } }` (B without break/continue/return)
         //     `for p in it.filter_map(|x| F) { B }` -> `for x in it { match F { Some(p) => B, None => {} } }`
         if let Expr::ForLoop(fl) = e {
